@@ -6,11 +6,16 @@
        flag never comes back) or hopeful -> defeated, nothing else; withdrawn stays withdrawn -- between ANY
        earlier and later snapshot, from the initial statuses to every snapshot, and from every snapshot to the
        final statuses.  (fwd / FwdL / ssn / snaps: Proofs/Forward.v, Proofs/ForwardCount.v.)
-   Seat bounds, QPQ transitions and crashed runs: states-scope correspondence + transition oracle (_partial). *)
+   (3) wigm, wigm-prf, wigm-prf-batch and scotland under Fixed / integer / Guarded(guard 0): a count that ends normally has
+       elected at most [seats] candidates (every winner of the main loop holds the quota, the quota exceeds ballots/(seats+1),
+       no votes are created -- so at most [seats] winners fit; the epilogues elect only while seats remain).  Statuses only
+       move forward (2), so no earlier snapshot shows more winners than the last.
+   Seat bounds for cfer, mpls, the Meek family (FALSE under guarded guard>0, refuted below), QPQ transitions and crashed runs:
+   states-scope correspondence + transition oracle (_partial). *)
 From Coq Require Import ZArith List Bool PArith Sorted String.
 Import ListNotations.
 From Droop Require Import Model.Arith Model.Prelude Model.State Model.Prims Model.Election
-  Proofs.CmdMeta Proofs.Hist Proofs.HistCount Proofs.Forward Proofs.ForwardCount.
+  Proofs.CmdMeta Proofs.Hist Proofs.HistCount Proofs.Forward Proofs.ForwardCount Proofs.Zlike Proofs.Conserve Proofs.ConserveCount.
 Open Scope string_scope.
 Open Scope Z_scope.
 
@@ -30,6 +35,14 @@ Theorem C09_status_only_moves_forward_partial : forall A cfg r pr fuel s,
   FwdL (stl A (cands (init_state A cfg pr))) (stl A (cands s)).
 Proof. exact count_forward. Qed.
 Print Assumptions C09_status_only_moves_forward_partial.
+
+Theorem C09_seats_never_over_committed : forall A S (ZL : zlike A S) cfg,
+  cf_method cfg = MWigm -> exact A = false -> 0 <= cf_nballots cfg -> 0 <= cf_nseats cfg ->
+  forall r pr fuel s k, seat_rule r -> wf_profile pr -> cf_nballots cfg = ballot_total pr ->
+  exec (@crashed A) fuel (count_cmd A cfg r) (init_state A cfg pr) = Some (s, k) -> k <> Abort ->
+  nlen (electeds A s) <= cf_nseats cfg.
+Proof. exact count_seats. Qed.
+Print Assumptions C09_seats_never_over_committed.
 
 (* what "forward" allows, spelled out *)
 Example C09_forward_relation :
